@@ -107,6 +107,7 @@ struct SimKnobs
   bool allow_spawn_fail   = false;
   bool allow_coarse_clock = false;
   bool faults_on          = true;  // false: fault-free stratum
+  bool allow_call_points  = false; // call-boundary preemption (engine's oracles must not assume atomicity between schedule points)
   int typical_len         = 400;
   int64_t stall_cap       = 3000;  // longest task_stall (in points) this engine can afford
 };
